@@ -67,6 +67,14 @@ def make_evaluator(ctx, orient_val):
             name = oc[1].split("::")[-1]
             if name in SYMS:
                 idx = canon(ci["args"][0])
+                if idx[0] == "var":
+                    # a named local holding the index: look through its (single) initialiser
+                    fn = ctx.func_containing(node)
+                    d = fn.unit.by_id.get(idx[1]) if fn is not None else None
+                    if d is not None and d.get("kind") == "VarDecl" and children(d) and name.startswith("pin"):
+                        from .common import var_write_nodes
+                        if not var_write_nodes(ctx, fn, [idx[1]]):
+                            idx = canon(children(d)[-1])
                 # the index must designate the pin (netLimits_[net] + i) resp. the cell
                 if name.startswith("pin"):
                     ok = idx[0] == "bin" and idx[1] == "+" and idx[2][0] == "index" and idx[2][1][1].endswith("netLimits_")
@@ -254,6 +262,8 @@ def check_hpwl(ctx, rep):
     pin_loop = None
     net_loop = None
     for i in infos:
+        if i["hi"]:
+            i["hi"] = expand_locals(ctx, f, i["hi"])
         if i["hi"] and i["hi"][0] == "call" and i["hi"][1] == CQ + "Circuit::nbPinsNet":
             pin_loop = i
         if i["hi"] and i["hi"][0] == "call" and i["hi"][1] == CQ + "Circuit::nbNets":
@@ -314,7 +324,7 @@ def check_hpwl(ctx, rep):
     for x in walk(net_loop["body"]):
         if x.get("kind") == "CompoundAssignOperator" and x.get("opcode") == "+=":
             l, r = children(x)
-            rc = canon(r)
+            rc = expand_locals(ctx, f, canon(r))
             if rc[0] == "bin" and rc[1] == "-" and rc[2][0] == "var" and rc[3][0] == "var":
                 added.append((rc[2], rc[3], x))
     for ax in ("X", "Y"):
